@@ -297,14 +297,11 @@ Proof.
     destruct Hin as [<-|Hin].
     + cbn. apply itoa_nonempty.
     + apply (IH (wrap_int (g + 1))). rewrite E. exact Hin.
-  - destruct (alloc_mids (bump g (t_mid x)) rest) as [g2 rest'] eqn:E. cbn [snd] in Hin.
+  - destruct (alloc_mids g rest) as [g2 rest'] eqn:E. cbn [snd] in Hin.
     destruct Hin as [<-|Hin].
     + unfold mid_unset in U. apply String.eqb_neq. exact U.
-    + apply (IH (bump g (t_mid x))). rewrite E. exact Hin.
+    + apply (IH g). rewrite E. exact Hin.
 Qed.
-
-Lemma offer_alloc_trs s : trs (offer_alloc s) = snd (alloc_mids (bump_remote (gmid s) (cur_remote s)) (trs s)).
-Proof. unfold offer_alloc. destruct (alloc_mids _ (trs s)). reflexivity. Qed.
 
 Lemma set_mids_all l : (forall t, In t l -> t_mid t <> "") -> set_mids l = map t_mid l.
 Proof.
@@ -329,7 +326,8 @@ Proof. unfold offer_alloc. destruct (alloc_mids _ (trs s)). reflexivity. Qed.
 Lemma create_offer_c06 s s' d :
   inv s -> offer_guard s -> create_offer s = (s', Ok d) -> c06_holds d.
 Proof.
-  intros [_ [Hc Hp]] (Hnum & Happ & Hdata & Hcod) H.
+  intros [Hnd0 [Hc Hp]] (Hnw & Happ & Hdata & Hcod) H.
+  pose proof (numbering_ok_lemma s Hnd0 Hnw) as Hnum.
   unfold create_offer in H. set (s1 := offer_alloc s) in *.
   destruct (offer_sections s1) as [l [[[base add] g]|e|]] eqn:E; try discriminate.
   destruct (populate (has_codecs (set_trs s1 l)) g (with_data add base)) as [p|e|] eqn:P; try discriminate.
@@ -359,20 +357,21 @@ Lemma create_answer_c06 s s' d :
 Proof.
   intros [_ [Hc Hp]] Hcod H. unfold create_answer in H.
   destruct (remote_desc s) as [rd|] eqn:R; [|discriminate].
-  destruct (sig s); try discriminate.
-  destruct (gen_matched s rd false) as [l [[[secs add] g]|e|]] eqn:E; try discriminate.
-  destruct (populate (has_codecs (set_trs s l)) g secs) as [p|e|] eqn:P; try discriminate.
-  injection H as _ <-.
-  apply populate_c06 with (1 := Hcod) (2 := P).
-  eapply gen_matched_answer_nodup; [|exact E].
-  unfold remote_desc in R. destruct (pend_remote s) as [pe|] eqn:Pe.
-  - injection R as <-. apply Hp. reflexivity.
-  - apply Hc. exact R.
+  assert (Hrd : rdesc_ok rd).
+  { unfold remote_desc in R. destruct (pend_remote s) as [pe|] eqn:Pe.
+    - injection R as <-. apply Hp. reflexivity.
+    - apply Hc. exact R. }
+  destruct (sig s); try discriminate;
+    (destruct (gen_matched s rd false) as [l [[[secs add] g]|e|]] eqn:E; try discriminate;
+     destruct (populate (has_codecs (set_trs s l)) g secs) as [p|e|] eqn:P; try discriminate;
+     injection H as _ <-;
+     apply populate_c06 with (1 := Hcod) (2 := P);
+     eapply gen_matched_answer_nodup; [exact Hrd|exact E]).
 Qed.
 
 (* C06 over every history *)
 Lemma c06_partial_lemma ops :
-  remote_ok ops -> numbering_ok_all ops ->
+  remote_ok ops -> nowrap_all ops ->
   forall s o d s', In (s, o, ODesc (Ok d), s') (trace ops) -> gen_guard s o -> c06_holds d.
 Proof.
   intros Hr Hn s o d s' Hin Hg.
@@ -383,6 +382,8 @@ Proof.
     destruct Hin as [[= <- <- <- <-]|Hin]; [exact E|]. exact (IH _ Hin). }
   destruct o; cbn [step] in Hstep.
   - destruct (add_transceiver s k d0); discriminate.
+  - destruct (add_track s k); discriminate.
+  - destruct (remove_track s i); discriminate.
   - destruct (stop_transceiver s i); discriminate.
   - destruct (create_data_channel s); discriminate.
   - destruct (create_offer s) as [s1 r] eqn:E. injection Hstep as -> ->.
@@ -394,7 +395,7 @@ Proof.
 Qed.
 
 Lemma trace_mids_distinct ops :
-  remote_ok ops -> numbering_ok_all ops ->
+  remote_ok ops -> nowrap_all ops ->
   forall s o out s', In (s, o, out, s') (trace ops) ->
   NoDup (set_mids (trs s)) /\ NoDup (set_mids (trs s')).
 Proof.
